@@ -49,7 +49,7 @@ def _streams():
     return s
 
 
-STREAMS = [threadlib.stress_stream("asan"), threadlib.stress_stream("tsan", "thread-stress-tsan")]
+STREAMS = [threadlib.stress_stream("asan"), threadlib.stress_stream("tsan", "thread-stress-tsan"), threadlib.waitempty_stream()]
 
 LEVEL_TEXT = ("Proof (partial): Lean 4 theorems over a transition system of the event thread and client threads, for every "
               "interleaving: the only lock nesting is channel lock -> event mutex (no lock-order deadlock; the event thread "
